@@ -685,7 +685,8 @@ def opWfRaw (j : Json) : Except String Json := do
   let sets ← (← getArr j "sets").toList.mapM strsOf
   let t ← ptreeOfJson (← j.getObjVal? "raw")
   pure <| Json.mkObj [("wf", O2P.Gate.wfT false sets t), ("nd", decide (O2P.Gate.NE t.labels).Nodup),
-    ("names", sets.all fun s => !s.contains "" && decide s.Nodup)]
+    ("names", sets.all fun s => !s.contains "" && decide s.Nodup),
+    ("produces", sets.all fun s => s.isEmpty || t.produces s)]
 
 /-- soundness against an explicit list of observed sets (no source tree): the observed sets the inferred tree does
 not admit -/
